@@ -6,6 +6,13 @@ NOTE = ("bounded scope only (declared lattices/catalogues/depths); exact Fractio
 TECH = "exhaustive small-scope enumeration of the real implementation against an exact reference model (explicit-state explorer written for this task)"
 
 CHECKS = {
+    "C13": ("from_points over all 25 052 five-point subsets of the 5x5 lattice with no three collinear (exact conic from the integer null space; "
+            "argument orders on a sub-family; from_crossratio with the exact cross ratio), from_tangent over all general 4-subsets of the 3x3 lattice x "
+            "every lattice line missing them (containment and zero discriminant of the restriction), from_foci over lattice foci x boundary points "
+            "against both confocal textbook conics and foci, Circle / Ellipse / Sphere over all lattice centres x radii (matrix, exact locus membership "
+            "on half-integer points, center / radius / foci / area / volume), Cone and Cylinder over all 124 lattice axis directions (all octants) "
+            "against the exact rational cone / cylinder matrix.",
+            NOTE, TECH, "DESIGN.md section 5, C13"),
     "C10": ("Every lattice line of {-2..2}^3 x every lattice point (on and off the line, several representatives, int/float) for perpendicular / "
             "parallel / project / mirror against exact rational closed forms; every plane of {-1,0,1}^4 x every lattice point; 3D lines in all 13 "
             "lattice directions x all lattice points (perpendicular through points on and off the line, parallel, project, mirror involution); "
